@@ -7,7 +7,8 @@ import gen
 from common import seed, pmap
 
 GLY = ["Glc", "Glc-ol", "Gal-ol", "Man-onic", "Glc-aric", "GlcA", "Neu5Ac(a2-3)Gal", "Man(a1-3)[Man(a1-6)]Man", "LDManHep", "Kdo-ulosonic", "Gal(b1-4)Glc-ol",
-       "1,6-Anhydro-Glc", "Glc3e", "D-Glc", "L-Glc", "GlcNAc a", "Fruf", "Ara-ol", "Api-ol", "ManHep", "Xyl-onic", "Gal(b1-4)GlcNAc b", "Glc6Ole(a1-4)Glc"]
+       "1,6-Anhydro-Glc", "Glc3e", "D-Glc", "L-Glc", "GlcNAc a", "Fruf", "Ara-ol", "Api-ol", "ManHep", "Xyl-onic", "Gal(b1-4)GlcNAc b", "Glc6Ole(a1-4)Glc",
+       "Gal-ulosonic", "3dGal-ulosonic", "Glc-ulosaric", "GalOct-ol", "3dGalOct-ulosonic", "ManHep-onic", "Man-ulosonic", "3dHex-ulosonic", "Hex-ol", "Gal-onic", "Man-aric"]
 BAD = ["Glc(", "", "Unk", "Glc#Man", "Glc(a1-?)Glc", "Glc(a1-1)Glc(a1-4)Glc", "Glc9S", "Man(a1-2", "xyz", {"none": 1}, {"int": 3}]
 
 
@@ -76,6 +77,14 @@ def run(rep, tier, driver):
         histories.append([{"fn": "glycan", "iupac": a, "methods": [["get_smiles"]]}, {"fn": "glycan", "iupac": b, "methods": [["get_smiles"]]},
                           {"fn": "glycan", "iupac": a, "methods": [["get_smiles"], ["summary"], ["get_smiles"]]},
                           {"fn": "convert", "glycan_list": [a, b, a], "verbose_none": 1}, {"fn": "glycan", "iupac": b, "methods": [["get_smiles"]]}])
+    # every open-form suffix of a sugar followed by every other open form of the same sugar (the class-level record must not remember anything)
+    sufs = ["-ol", "-onic", "-aric", "-ulosonic", "-ulosaric"]
+    for sugar in (["Gal", "Glc"] if tier == "quick" else ["Gal", "Glc", "Man", "Xyl", "Hex", "Ara"]):
+        for pre in ["", "3d"]:
+            for s1 in sufs:
+                histories.append([{"fn": "glycan", "iupac": pre + sugar + s1, "methods": [["get_smiles"]]}] +
+                                 [{"fn": "glycan", "iupac": sugar + s2, "methods": [["get_smiles"]]} for s2 in sufs] +
+                                 [{"fn": "glycan", "iupac": sugar + "Oct-ol", "methods": [["get_smiles"]]}])
     rep.rule = ("random call histories (convert, convert_generator incl. abandoned generators, Glycan construction + get_smiles/summary/count/"
                 "save_dot/get_tree in random order; good and failing inputs; verbose=None, file/stdout sinks, missing file) executed in one fresh "
                 "interpreter, and every call of every history executed alone in its own fresh interpreter; Spec: identical result, root logger "
